@@ -282,6 +282,21 @@ pub fn replay_c01(data: &[u8]) -> PResult {
     c01_case(data, &mut Stats::default())
 }
 
+/// The packets of the repository's own test-suite with the verdict each test asserts
+/// (extracted by tools/extract_test_packets.py into harness/test_packets.txt).
+pub fn repo_test_packets() -> Vec<(String, bool, Vec<u8>)> {
+    include_str!("../../test_packets.txt")
+        .lines()
+        .filter_map(|l| {
+            let mut it = l.split_whitespace();
+            let name = it.next()?.to_string();
+            let ok = it.next()? == "ok";
+            let data = unhex(it.next().unwrap_or(""))?;
+            Some((name, ok, data))
+        })
+        .collect()
+}
+
 /// Fixed regression inputs for C01/C02 (plain byte strings).
 fn regression_inputs() -> Vec<(&'static str, Vec<u8>)> {
     let mut v: Vec<(&'static str, Vec<u8>)> = vec![("empty", vec![]), ("eleven", vec![0; 11]), ("twelve-zero", vec![0; 12])];
@@ -501,6 +516,17 @@ pub fn check_c02(ctx: &Ctx, known: &KnownFindings) -> Report {
         let mut st = Stats::default();
         let r = catch(|| c02_compare(&b, name, &mut st));
         rep.direct(name, r, &ks);
+    }
+    // the 18 packets of tests/test_dnssector.rs: parser and reference must both give the verdict the test asserts
+    for (name, expect, b) in repo_test_packets() {
+        let mut st = Stats::default();
+        let r = catch(|| -> PResult {
+            let v = refdec::verdict(&b);
+            ensure!(matches!(v, Verdict::Accept) == expect, "HARNESS: reference disagrees with the repository's test-suite", "test {} asserts accept={} but the reference says {:?}", name, expect, v);
+            c02_compare(&b, &name, &mut st)
+        });
+        rep.stats.class("repo-test-packet");
+        rep.direct(&name, r, &ks);
     }
     for (name, b, expect) in clause_pairs() {
         let mut st = Stats::default();
